@@ -38,6 +38,10 @@ impl Conversion {
             let mut alphabet = self.alphabets[0].clone();
             if sokuon_count > 0 {
                 let tmp = alphabet.chars().take(1).collect::<String>();
+                // 母音は重ねても促音にならないので、促音自体の綴りを使わせる
+                if "aiueo".contains(tmp.as_str()) {
+                    return None;
+                }
                 alphabet = format!("{}{}", tmp.repeat(sokuon_count), alphabet)
             }
 
